@@ -39,6 +39,13 @@ func (err withStack) Unwrap() error {
 	return err.inner
 }
 
+// Is reports true for any withStack target. withStack is not comparable (it holds a slice), so
+// errors.Is can only recognize an error that already has a stack attached through this method.
+func (err withStack) Is(target error) bool {
+	_, ok := target.(withStack)
+	return ok
+}
+
 var noError = errors.New("no error")
 
 // WithStack returns an error that wraps err and adds the call stack of the call to WithStack to
